@@ -61,7 +61,7 @@ for name in sorted(desc):
     else:
         out.append(f"| {name} | `{desc[name]}` | (not run) |")
 out += ["", "## 3. Property-preserving changes (no alarm expected)", "",
-        "`benign-*` are my own patches; `P1a..P2d` (under /verif/preserving/) were written by two independent sub-agents that got the 18 property statements and were asked for legitimate internal changes that keep every property (other free-slot choice, other write / sync order, reversed iteration order, tail insertion into chains, stale bitmap flags, pre-collecting iterators, Err instead of panic on a foreign signature, ...). All 18 quick checks were run against each.", "",
+        "`benign-*` are my own patches; `P1a..P4d` (under /verif/preserving/) were written by four independent sub-agents that got the 18 property statements and were asked for legitimate internal changes that keep every property (other free-slot choice, other write / sync order, reversed iteration order, tail insertion into chains, stale bitmap flags, pre-collecting iterators, Err instead of panic on a foreign signature, ...). All 18 quick checks were run against each.", "",
         "| patch | what changes | alarms |", "|---|---|---|"]
 for f in sorted(glob.glob("/verif/preserving/*/meta.json")):
     m = json.load(open(f))
